@@ -103,25 +103,127 @@ partial def ofTerm (j : Json) : Except String Term := do
   | "diff" => do
     let vs ← (← getArr j "v").mapM ofVal
     pure (.diff d (Items.ofList vs))
+  | "hist" => do
+    match ← ofVal j with
+    | .term t => pure t
+    | .conj _ => throw "hist: a Conjunction where a term is expected"
   | _ => throw s!"bad term kind {k}"
 partial def ofVal (j : Json) : Except String Val := do
   let k ← getStr j "k"
   if k == "conj" then
     let ts ← (← getArr j "t").mapM ofTerm
     pure (.conj (Terms.ofList ts))
+  else if k == "hist" then
+    let base ← ofVal (← j.getObjVal? "base")
+    (← getArr j "ops").foldlM applyOp base
   else
     pure (.term (← ofTerm j))
+/-- one public mutator call on a constructed object -/
+partial def applyOp (v : Val) (op : Json) : Except String Val := do
+  let a := (← op.getArr?).toList
+  let name ← match a with
+    | n :: _ => n.getStr?
+    | [] => throw "empty op"
+  let path (i : Nat) : Except String (List Str) := do
+    match a[i]? with
+    | some p => (← p.getArr?).toList.mapM ofCps
+    | none => throw "op: missing path"
+  let arg (i : Nat) : Except String Val := do
+    match a[i]? with
+    | some x => ofVal x
+    | none => throw "op: missing value"
+  match name, v with
+  | "set", .term (.avm d fs) => do pure (.term (.avm d (← liftE (setPath fs (← path 1) (← arg 2)))))
+  | "del", .term (.avm d fs) => do pure (.term (.avm d (← liftE (delPath fs (← path 1)))))
+  | "normalize", .term t => do pure (.term (← liftE (normTerm t)))
+  | "normalize", .conj ts => do pure (.conj (← liftE (normTop ts)))
+  | "append", .term t => do pure (.term (← liftE (consAppend t (← arg 1))))
+  | "terminate", .term t => do
+    let e ← match a[1]? with
+      | some (Json.str "closed") => pure PEnd.none
+      | some (Json.str "open") => pure PEnd.opn
+      | some x => do pure (PEnd.dotted (← ofVal x))
+      | none => throw "terminate: missing end"
+    pure (.term (← liftE (consTerminate t e)))
+  | "add", .conj ts => do pure (.conj (conjAdd ts (← arg 1)))
+  | "and", .conj ts => do pure (.conj (conjAdd ts (← arg 1)))
+  | "and", .term t => do pure (.conj (conjAdd (.cons t .nil) (← arg 1)))
+  | _, _ => liftE (.error .unmodelled)
 end
+
+/-- `Conjunction.__setitem__`: set in the last (plain) AVM term -/
+def setLast (p : List Str) (v : Val) : List Term → Except Err (Option (List Term))
+  | [] => .ok none
+  | t :: r =>
+    match setLast p v r with
+    | .error e => .error e
+    | .ok (some r') => .ok (some (t :: r'))
+    | .ok none =>
+      match t with
+      | .avm d fs =>
+        match setPath fs p v with
+        | .ok fs' => .ok (some (.avm d fs' :: r))
+        | .error e => .error e
+      | _ => .ok none
+
+/-- `td[path] = v`, `del td[path]`, `td.conjunction.normalize()` on the body of a definition -/
+def bodyOp (ts : Terms) (op : Json) : Except String Terms := do
+  let a := (← op.getArr?).toList
+  let name ← match a with
+    | n :: _ => n.getStr?
+    | [] => throw "empty op"
+  match name with
+  | "normalize" => liftE (normTop ts)
+  | "set" | "del" => do
+    let l := ts.toList
+    -- Conjunction.__setitem__ uses the last AVM; __delitem__ every AVM that has the key
+    if l.any (fun t => match t with | .cons .. | .diff .. => true | _ => false) then liftE (.error .unmodelled)
+    else
+      let p ← match a[1]? with
+        | some p => (← p.getArr?).toList.mapM ofCps
+        | none => throw "op: missing path"
+      if name == "set" then
+        let v ← match a[2]? with
+          | some x => ofVal x
+          | none => throw "op: missing value"
+        match ← liftE (setLast p v l) with
+        | some l' => pure (Terms.ofList l')
+        | none => liftE (.error .tdlError)
+      else
+        let has (t : Term) : Except Err Bool :=
+          match t with
+          | .avm _ fs =>
+            match getPath fs p with
+            | .ok _ => .ok true
+            | .error .keyError => .ok false
+            | .error _ => .error .unmodelled
+          | _ => .ok false
+        let flags ← liftE (l.mapM has)
+        if !flags.any id then liftE (.error .keyError)
+        else
+          let l' ← liftE (l.mapM (fun t => match t with
+            | .avm d fs =>
+              match getPath fs p with
+              | .ok _ => (match delPath fs p with | .ok fs' => .ok (.avm d fs') | .error e => .error e)
+              | .error _ => .ok t
+            | t => Except.ok t))
+          pure (Terms.ofList l')
+  | _ => liftE (.error .unmodelled)
+
+def withOps (j : Json) (ts : List Term) : Except String Terms := do
+  match j.getObjVal? "ops" with
+  | .ok ops => (← ops.getArr?).toList.foldlM bodyOp (Terms.ofList ts)
+  | .error _ => pure (Terms.ofList ts)
 
 def ofItem (j : Json) : Except String Item := do
   let k ← getStr j "k"
   match k with
   | "typedef" => do
     let ts ← (← getArr j "t").mapM ofTerm
-    pure (.typedef (← getCps j "id") (Terms.ofList ts) (← getOptCps j "d"))
+    pure (.typedef (← getCps j "id") (← withOps j ts) (← getOptCps j "d"))
   | "addendum" => do
     let ts ← (← getArr j "t").mapM ofTerm
-    pure (.addendum (← getCps j "id") (Terms.ofList ts) (← getOptCps j "d"))
+    pure (.addendum (← getCps j "id") (← withOps j ts) (← getOptCps j "d"))
   | "lexrule" => do
     let ts ← (← getArr j "t").mapM ofTerm
     let pats ← (← getArr j "p").mapM (fun e => do
